@@ -1,4 +1,5 @@
 import Cjet.Lemmas.DaemonC03Close
+import Cjet.Props.CjsonTree
 import Cjet.Lemmas.DaemonC03Refusal
 /-!
 # C03 — routed set/call: delivered once to the owner, answered once to the caller
@@ -539,5 +540,14 @@ example : EO (mkCtx exS {}).st ∧ Checks exCfg (mkCtx exS {}).st exP2 exSet tru
 /-- `duplicate_reply_ignored`: the table of peer 1 after the reply -/
 example : ∃ p', findPeer (removeRoute exS1.peers exRoute.owner exRoute.rid) exRoute.owner = some p' :=
   ⟨_, by with_unfolding_all rfl⟩
+
+
+/-! ### the cJSON tree layer: every stored, forwarded or routed value is a cJSON_Duplicate (real code tied by vlib/cjsontree_tie.py) -/
+
+theorem json_duplicate_is_faithful_copy : type_of% @Cjet.Props.CjsonTree.duplicate_is_faithful_copy := @Cjet.Props.CjsonTree.duplicate_is_faithful_copy
+theorem json_duplicate_exact_without_references : type_of% @Cjet.Props.CjsonTree.duplicate_exact_without_references := @Cjet.Props.CjsonTree.duplicate_exact_without_references
+theorem json_duplicate_succeeds_when_allocations_do : type_of% @Cjet.Props.CjsonTree.duplicate_succeeds_when_allocations_do := @Cjet.Props.CjsonTree.duplicate_succeeds_when_allocations_do
+theorem json_get_object_item_first_hit : type_of% @Cjet.Props.CjsonTree.get_object_item_first_hit := @Cjet.Props.CjsonTree.get_object_item_first_hit
+theorem json_get_object_item_ci_none_iff : type_of% @Cjet.Props.CjsonTree.get_object_item_ci_none_iff := @Cjet.Props.CjsonTree.get_object_item_ci_none_iff
 
 end Cjet.Props.C03
